@@ -221,7 +221,12 @@ def run_twin(ns, fam, ops_in=None, seed=0, profile="basic", n_steps=30):
                         exp_err = None
                     except Exception as e:  # noqa: BLE001
                         exp, exp_err = None, e
-                    if (real_err is None) != (exp_err is None) or (real_err is not None and err_class(real_err) != err_class(exp_err)):
+                    if mirrored and path is None and attached_path(ns, tb) is None:
+                        # the handle is detached on BOTH sides (its position is gone): what a detached
+                        # node still holds is whatever it was last synchronised with, and the two
+                        # executions synchronise at different points - nothing to compare
+                        stats["detached_calls"] += 1
+                    elif (real_err is None) != (exp_err is None) or (real_err is not None and err_class(real_err) != err_class(exp_err)):
                         viol.append((("C05", "C06"), "%s%r: buffered %s, unbuffered %s" % (
                             name, tuple(args), "ok" if real_err is None else type(real_err).__name__,
                             "ok" if exp_err is None else type(exp_err).__name__)))
